@@ -126,6 +126,24 @@ func checkC04(e *Env) {
 	footerLast(e, wt)
 
 	// (d) accounting
+	// the counter handed to WriteTo starts at zero and wraps the destination it was given
+	if ncw := e.fn("bundle.NewCountingWriter"); ncw != nil {
+		e.requireResult("ACCOUNT", ncw, gate.Outcome{Kind: gate.AnyReturn}, 0, "alloc:bundle.CountingWriter", "a fresh CountingWriter (never the argument itself or a shared one)")
+		e.requireStore("ACCOUNT", ncw, "alloc:bundle.CountingWriter.w", "param:w", "the destination passed in")
+		zero := true
+		for _, b := range ncw.Blocks {
+			for _, in := range b.Instrs {
+				if st, ok := in.(*ssa.Store); ok && prov.Of(st.Addr) == "alloc:bundle.CountingWriter.Written" && prov.Of(st.Val) != "const:0" {
+					zero = false
+				}
+			}
+		}
+		if zero {
+			e.R.OK("ACCOUNT", "bundle.NewCountingWriter:starts-at-zero", e.P.Pos(ncw.Pos()), "Written starts at 0")
+		} else {
+			e.R.Fail("ACCOUNT", "bundle.NewCountingWriter:starts-at-zero", e.P.Pos(ncw.Pos()), "a new counter does not start at 0")
+		}
+	}
 	countingWriterAccounting(e, a)
 	writeToReturnsWritten(e)
 	e.R.Floor("LAYER", 8)
